@@ -19,7 +19,8 @@ from vlib.runner import Ctx, Failure
 LEVEL = "exploration"
 RULE = (
     "host programs from the C05 grammar whose flush points are drawn as ordinary flush or compile/instantiate/commit; "
-    "segments committed via compile() contain >=1 rotation whose numerator is a Template (values 0..255 per name); compiler "
+    "segments committed via compile() contain >=1 rotation whose numerator is a Template (values 0..255 per name); also "
+    "compile-now / other operations and flushes / commit-later histories compared with the same operations flushed in commit order; compiler "
     "in {none, NV transpiler}; 0..3 further statements+flushes after a precompiled commit.  Non-trivial = a template value "
     "changes the trace (n mod 2^(d+1) != 0) and >=1 later flush follows a precompiled commit; distinct by (AST, valuation)"
 )
@@ -76,6 +77,58 @@ def st_case(draw, tier="quick"):
     return {"stmts": new_stmts, "outcomes": prog["outcomes"], "qubits": 2, "values": values, "nv": nv}
 
 
+@st.composite
+def st_delayed(draw):
+    """compile() now, other work (and possibly a flush) in between, commit later"""
+    def adds(n):
+        out = []
+        for _ in range(n):
+            out.append(["add", ["elem", draw(st.integers(0, 1)), 0], draw(st.integers(1, 3)), draw(st.sampled_from([None, None, 3]))])
+            if draw(st.integers(0, 2)) == 0:
+                out.append(["flush"])
+        return out
+
+    prefix = [["newarr", 0, [draw(st.integers(0, 3))]], ["newarr", 1, [draw(st.integers(0, 3)), 1]]] + adds(draw(st.integers(0, 2)))
+    # everything the later "middle" operations touch must already exist on the controller when compile() is called:
+    # operations still pending at that point become part of the held subroutine and only run at commit time
+    if prefix[-1] != ["flush"]:
+        prefix.append(["flush"])
+    d = draw(st.integers(0, 5))
+    seg = [["newarr", 2, [None]], ["newq", 1001], ["rot", draw(st.sampled_from("XYZ")), 1001, {"template": "t0"}, d], ["meas", 1001, ["elem", 2, 0], False]]
+    if draw(st.booleans()):
+        seg.insert(0, ["add", ["elem", 1, 1], 1, None])
+    middle = adds(draw(st.integers(0, 3)))
+    tail = adds(draw(st.integers(0, 2)))
+    return {
+        "delayed": True, "prefix": prefix, "segment": seg, "middle": middle, "tail": tail,
+        "values": {"t0": draw(st.integers(0, 255))}, "nv": draw(st.integers(0, 2)) == 0,
+        "outcomes": draw(st.lists(st.integers(0, 1), max_size=4)), "qubits": 2,
+    }
+
+
+def check_delayed(case) -> Dict[str, Any]:
+    a_stmts = case["prefix"] + case["segment"] + [["pcompile"]] + case["middle"] + [["pcommit"]] + case["tail"] + [["flush"]]
+    b_stmts = case["prefix"] + case["middle"] + case["segment"] + [["pflush"]] + case["tail"] + [["flush"]]
+    A = Recorder(case, "A")
+    A.run(a_stmts)
+    B = Recorder(case, "B")
+    B.run(b_stmts)
+    if A.error or B.error:
+        raise Failure("delayed:error", case, f"compile-now/commit-later flow ended with {A.error}; the same operations flushed in commit order ended with {B.error}")
+    decl = [a for r in A.records for a in r["declared"]]
+    if len(decl) != len(set(decl)):
+        raise Failure("delayed:array-redeclared", case, f"with compile() ... commit_subroutine() later, arrays were declared more than once: {decl}")
+    ra, rb = A.records[-1], B.records[-1]
+    for key, what in (("arrays", "controller arrays"), ("host_arrays", "host-visible arrays")):
+        if ra[key] != rb[key]:
+            raise Failure(f"delayed:{key}", case, f"final {what} differ: compile-now/commit-later {ra[key]} vs flushed in commit order {rb[key]}")
+    evA = sorted(e for r in A.records for e in r["events"])
+    evB = sorted(e for r in B.records for e in r["events"])
+    if evA != evB:
+        raise Failure("delayed:events", case, f"controller gate/measure events differ: {evA} vs {evB}")
+    return {"flushes": len(A.records), "error": None, "middle_flush": any(x[0] == "flush" for x in case["middle"])}
+
+
 def _subst(stmts, values):
     out = []
     for s in stmts:
@@ -118,6 +171,8 @@ class Recorder:
         self.declared_twice: List[int] = []
         self._seen_arrays: set = set()
         self._pos = 0
+        self.held = None
+        self._n_subs_seen = 0
 
     def run(self, stmts):
         from netqasm.lang.operand import Template
@@ -131,6 +186,16 @@ class Recorder:
 
                     n = Template(s[3]["template"]) if rec.flow == "A" else rec.values[s[3]["template"]]
                     getattr(self.qubits[s[2]], "rot_" + s[1])(n=n, d=s[4])
+                    return
+                if s[0] == "pcompile":
+                    rec.held = self.conn.compile()
+                    return
+                if s[0] == "pcommit":
+                    if rec.held is not None:
+                        rec.held.instantiate(self.conn.app_id, dict(rec.values))
+                        self.conn.commit_subroutine(rec.held)
+                    self.on_flush(self.n_flush)
+                    self.n_flush += 1
                     return
                 if s[0] == "pflush":
                     if rec.flow == "A":
@@ -158,7 +223,9 @@ class Recorder:
         ex = self.ex
         # which arrays did the subroutine of this flush declare?
         subs = self.conn.sent_subroutines(flavour=self.ctrl.flavour)
-        declared = [i.address.address for i in subs[-1].instructions if i.mnemonic == "array"] if subs else []
+        new_subs = subs[self._n_subs_seen :]
+        self._n_subs_seen = len(subs)
+        declared = [i.address.address for sub in new_subs for i in sub.instructions if i.mnemonic == "array"]
         host = {}
         for aid, h in self.runner.arrays.items():
             try:
@@ -185,6 +252,8 @@ class Recorder:
 
 
 def check(case) -> Dict[str, Any]:
+    if case.get("delayed"):
+        return check_delayed(case)
     stmts = case["stmts"]
     A = Recorder(case, "A")
     A.run(stmts)
@@ -248,6 +317,16 @@ def shard(ctx: Ctx) -> None:
         stt.case([case["stmts"], case["values"], case["nv"]], nt, labels, sample=case if len(str(case)) < 700 else None)
 
     ctx.search(st_case(ctx.tier), body, n, name="c06")
+
+    def body_delayed(case):
+        info = check(case)
+        v = case["values"]["t0"]
+        d = next(x[4] for x in case["segment"] if x[0] == "rot")
+        nt = v % (2 ** (d + 1)) != 0 and bool(case["middle"])
+        labels = ["delayed", "nv" if case["nv"] else "vanilla"] + (["flush-between-compile-and-commit"] if info.get("middle_flush") else []) + (["ops-between-compile-and-commit"] if case["middle"] else [])
+        stt.case([case["prefix"], case["segment"], case["middle"], case["tail"], case["values"], case["nv"]], nt, labels, sample=case if len(str(case)) < 900 else None)
+
+    ctx.search(st_delayed(), body_delayed, n // 2, name="c06-delayed", salt=3)
 
 
 def replay(case):
